@@ -568,95 +568,9 @@ func init() {
 			fns := p.FuncsInPkg("cmd/wrgl")
 			r.Analysed = len(fns)
 			for _, fn := range fns {
-				var baseSeeds []ssa.Value
-				for _, ci := range callsTo(fn, sca) {
-					if call, ok := ci.(*ssa.Call); ok {
-						for _, ref := range *call.Referrers() {
-							if ex, ok := ref.(*ssa.Extract); ok && ex.Index == 0 {
-								baseSeeds = append(baseSeeds, ex)
-							}
-						}
-					}
-				}
-				if len(baseSeeds) == 0 {
+				filtered, oneEdges, ok := ffContext(fn, sca)
+				if !ok {
 					continue
-				}
-				base := forward(baseSeeds, fwdOpts{noBinOp: true})
-				// not-equal-to-base edges
-				var eqCalls []ssa.Value
-				eachCall(fn, func(ci ssa.CallInstruction) {
-					f := calleeFunc(ci)
-					if f == nil || f.Pkg() == nil || f.Pkg().Path() != "bytes" || f.Name() != "Equal" {
-						return
-					}
-					a := ci.Common().Args
-					if len(a) == 2 && (base[a[0]] || base[a[1]]) {
-						if v, ok := ci.(*ssa.Call); ok {
-							eqCalls = append(eqCalls, v)
-						}
-					}
-				})
-				neqCut := mkCut(boolEdges(fn, forward(eqCalls, fwdOpts{noBinOp: true}), false))
-				// appends that only happen on a not-equal edge
-				var filteredSeeds []ssa.Value
-				for _, b := range fn.Blocks {
-					for _, in := range b.Instrs {
-						call, ok := in.(*ssa.Call)
-						if !ok {
-							continue
-						}
-						if bi, ok := call.Call.Value.(*ssa.Builtin); !ok || bi.Name() != "append" {
-							continue
-						}
-						if len(neqCut) == 0 {
-							continue
-						}
-						if _, reach := reachAfter(fn, nil, call, neqCut, nil); !reach {
-							filteredSeeds = append(filteredSeeds, call)
-						}
-					}
-				}
-				filtered := forward(filteredSeeds, fwdOpts{noBinOp: true})
-				// a φ that also merges an unfiltered slice is not a filtered list
-				for v := range filtered {
-					if ph, ok := v.(*ssa.Phi); ok {
-						for _, e := range ph.Edges {
-							if !filtered[e] {
-								if mk, isMk := e.(*ssa.MakeSlice); isMk {
-									_ = mk // the empty initial list
-									continue
-								}
-								if sl, isSl := e.(*ssa.Slice); isSl {
-									if _, isAlloc := sl.X.(*ssa.Alloc); isAlloc {
-										continue // empty composite literal [][]byte{}
-									}
-								}
-								delete(filtered, v)
-							}
-						}
-					}
-				}
-				// len(list) == 1 edges
-				var oneEdges []edge
-				for _, b := range fn.Blocks {
-					if len(b.Instrs) == 0 {
-						continue
-					}
-					ifi, ok := b.Instrs[len(b.Instrs)-1].(*ssa.If)
-					if !ok {
-						continue
-					}
-					bo, ok := ifi.Cond.(*ssa.BinOp)
-					if !ok || bo.Op != token.EQL {
-						continue
-					}
-					for _, pair := range [][2]ssa.Value{{bo.X, bo.Y}, {bo.Y, bo.X}} {
-						if x, isLen := lenOperand(pair[0]); isLen && filtered[x] {
-							if k, isC := constInt(pair[1]); isC && k == 1 {
-								oneEdges = append(oneEdges, edge{b, 0})
-							}
-						}
-					}
 				}
 				for _, s := range c.sites(fn) {
 					ci, ok := s.in.(ssa.CallInstruction)
@@ -688,6 +602,102 @@ func init() {
 			return nil
 		},
 	})
+}
+
+// ffContext: in a function that computes a merge base, the list(s) filled only under
+// the 'differs from the base' edge and the `len(list) == 1` edges.
+func ffContext(fn *ssa.Function, sca map[*types.Func]bool) (filtered map[ssa.Value]bool, oneEdges []edge, ok bool) {
+	var baseSeeds []ssa.Value
+	for _, ci := range callsTo(fn, sca) {
+		if call, ok := ci.(*ssa.Call); ok {
+			for _, ref := range *call.Referrers() {
+				if ex, ok := ref.(*ssa.Extract); ok && ex.Index == 0 {
+					baseSeeds = append(baseSeeds, ex)
+				}
+			}
+		}
+	}
+	if len(baseSeeds) == 0 {
+		return nil, nil, false
+	}
+	base := forward(baseSeeds, fwdOpts{noBinOp: true})
+	// not-equal-to-base edges
+	var eqCalls []ssa.Value
+	eachCall(fn, func(ci ssa.CallInstruction) {
+		f := calleeFunc(ci)
+		if f == nil || f.Pkg() == nil || f.Pkg().Path() != "bytes" || f.Name() != "Equal" {
+			return
+		}
+		a := ci.Common().Args
+		if len(a) == 2 && (base[a[0]] || base[a[1]]) {
+			if v, ok := ci.(*ssa.Call); ok {
+				eqCalls = append(eqCalls, v)
+			}
+		}
+	})
+	neqCut := mkCut(boolEdges(fn, forward(eqCalls, fwdOpts{noBinOp: true}), false))
+	// appends that only happen on a not-equal edge
+	var filteredSeeds []ssa.Value
+	for _, b := range fn.Blocks {
+		for _, in := range b.Instrs {
+			call, ok := in.(*ssa.Call)
+			if !ok {
+				continue
+			}
+			if bi, ok := call.Call.Value.(*ssa.Builtin); !ok || bi.Name() != "append" {
+				continue
+			}
+			if len(neqCut) == 0 {
+				continue
+			}
+			if _, reach := reachAfter(fn, nil, call, neqCut, nil); !reach {
+				filteredSeeds = append(filteredSeeds, call)
+			}
+		}
+	}
+	filtered = forward(filteredSeeds, fwdOpts{noBinOp: true})
+	// a φ that also merges an unfiltered slice is not a filtered list
+	for v := range filtered {
+		if ph, ok := v.(*ssa.Phi); ok {
+			for _, e := range ph.Edges {
+				if !filtered[e] {
+					if mk, isMk := e.(*ssa.MakeSlice); isMk {
+						_ = mk // the empty initial list
+						continue
+					}
+					if sl, isSl := e.(*ssa.Slice); isSl {
+						if _, isAlloc := sl.X.(*ssa.Alloc); isAlloc {
+							continue // empty composite literal [][]byte{}
+						}
+					}
+					delete(filtered, v)
+				}
+			}
+		}
+	}
+	// len(list) == 1 edges
+
+	for _, b := range fn.Blocks {
+		if len(b.Instrs) == 0 {
+			continue
+		}
+		ifi, ok := b.Instrs[len(b.Instrs)-1].(*ssa.If)
+		if !ok {
+			continue
+		}
+		bo, ok := ifi.Cond.(*ssa.BinOp)
+		if !ok || bo.Op != token.EQL {
+			continue
+		}
+		for _, pair := range [][2]ssa.Value{{bo.X, bo.Y}, {bo.Y, bo.X}} {
+			if x, isLen := lenOperand(pair[0]); isLen && filtered[x] {
+				if k, isC := constInt(pair[1]); isC && k == 1 {
+					oneEdges = append(oneEdges, edge{b, 0})
+				}
+			}
+		}
+	}
+	return filtered, oneEdges, true
 }
 
 func init() {
